@@ -248,6 +248,73 @@ def continuations(ctx):
     return ev
 
 
+HEADER_FORMS = [
+    # (lines inserted between SFAC and UNIT, what)
+    ['DISP C 0.0033 0.0016 11.5'], ['DISP C 0.0033 0.0016 11.5', 'DISP H 0 0 0.6'], ['DISP C 0.0033 0.0016 11.5', 'DISP H 0 0 0.6', 'DISP O 0.0106 0.006 32.5'],
+    ['DISP $C 0.0033 0.0016', 'DISP N 0.0061 0.0033 19.6'], ['disp c 0.0033 0.0016 11.5', 'Disp H 0 0'],
+]
+
+
+def header_forms(ctx):
+    """instructions that belong between SFAC and UNIT (one to three DISP lines), in all three modes"""
+    ev = 0
+    for ins in HEADER_FORMS:
+        lines = HEAD[:6] + ins + HEAD[6:] + ATOMS + TAIL
+        text = '\n'.join(lines) + '\n'
+        models = []
+        for mode in MODES:
+            status, inner, shx = im.read_text(text, mode)
+            ev += 1
+            case = {'instruction': ' / '.join(ins), 'mode': mode, 'text': text}
+            if status != 'ok' or inner:
+                common.add_violation(ctx, 'a valid instruction raises', case, 'no exception', status + ' / ' + str(inner))
+                continue
+            names = [a.name for a in shx.atoms.all_atoms]
+            if names != ['C1', 'O1', 'N1', 'C2'] or shx.error_line_num != len(lines) - 1 or not shx.end or shx.unit is None:
+                common.add_violation(ctx, 'UNIT, atoms or END after valid DISP instructions are not reached', case, ['C1', 'O1', 'N1', 'C2'], names)
+                continue
+            models.append((im.atoms_table(shx), im.instr_tokens(shx)))
+        if len(models) == 3 and not (models[0] == models[1] == models[2]):
+            common.add_violation(ctx, 'the model differs between quiet, verbose and debug mode', {'instruction': ' / '.join(ins), 'text': text}, 'identical', 'different')
+    return ev
+
+
+NASTY = ['', '_', '__', 'C1__2', 'C1_1_2', 'C1_', '_2', '_*', 'C1_*_2', 'C1_$', '$', '$$', '_$1', '=', '==', '!', '.', '-', '+', '-.', '1e999', 'nan', 'inf', '-inf',
+         '1.2.3', '--1', '0x10', '>', '<', '> <', '1,5', '1/0', '1/', '/2', '(1)', '0.5(', 'X+', '+X+', 'x,y', ',', ':', 'A:', ':1', 'A:B', '\t', '\x0c',
+         '99999999999999999999', '1e-999', '+filename', '+', '++x', 'END', 'HKLF', 'FEND', 'FRAG']
+
+
+def malformed_tokens(ctx, n):
+    """quiet mode never raises: valid files in which one token of one line is replaced by (or extended with) a token from a list of awkward spellings"""
+    rng = ctx.rng
+    ev = 0
+    for k in range(n):
+        gf = rf.gen_file(rng, natoms=rng.randint(1, 5))
+        lines = rf.render_file(gf, rng, 'plain').rstrip('\n').split('\n')
+        for _ in range(rng.randint(1, 2)):
+            i = rng.randrange(len(lines))
+            rl = [q for q, l in enumerate(lines) if l[:4].upper() in ('SADI', 'DFIX', 'DANG', 'SIMU', 'DELU', 'RIGU', 'FLAT', 'EADP', 'EXYZ', 'ISOR', 'SAME', 'CHIV')]
+            if rl and rng.random() < 0.5:
+                i = rng.choice(rl)      # half of the time a restraint: its atoms are looked at again after the card loop
+            toks = lines[i].split(' ')
+            j = rng.randrange(len(toks))
+            op = rng.random()
+            bad = rng.choice(NASTY)
+            if op < 0.5:
+                toks[j] = bad
+            elif op < 0.8:
+                toks[j] = toks[j] + bad
+            else:
+                toks.insert(j, bad)
+            lines[i] = ' '.join(toks)
+        t = '\n'.join(lines) + '\n'
+        status, inner, shx = im.read_text(t, 'quiet')
+        ev += 1
+        if status != 'ok':
+            common.add_violation(ctx, 'quiet mode raises on malformed text', {'text': t}, 'no exception', status)
+    return ev
+
+
 def random_files(ctx, n):
     rng = ctx.rng
     ev = 0
@@ -321,14 +388,14 @@ def run(ctx):
     else:
         ctx.discharged += 1
     ng, nacc = run_grid(ctx)
-    n1 = covering(ctx) + footers(ctx) + context_forms(ctx) + continuations(ctx)
+    n1 = covering(ctx) + footers(ctx) + context_forms(ctx) + continuations(ctx) + header_forms(ctx)
     n2 = random_files(ctx, 3000 if ctx.thorough() else 40)
-    n3 = malformed(ctx, 150000 if ctx.thorough() else 1500)
+    n3 = malformed(ctx, 150000 if ctx.thorough() else 1500) + malformed_tokens(ctx, 60000 if ctx.thorough() else 1500)
     ctx.cov['evaluations'] = ng + n1 + n2 + n3
     ctx.cov['distinct_nontrivial'] = ng + n1 // 3
     ctx.cov['rule'] = ('grid keyword x 0..11 (thorough 0..14) numeric parameters x 0..3 (0..5) names in three modes for the model correspondence '
                        '(%d grid points, %d accepted); covering set every keyword x every admissible arity x word count x position (first / middle / '
-                       'before HKLF) x mode against the expected atom list; long instructions over 1-5 physical lines; random valid files; byte-mutated files in quiet mode' % (ng, nacc))
+                       'before HKLF) x mode against the expected atom list; long instructions over 1-5 physical lines; random valid files; byte-mutated files and files with one awkward token (double underscores, bare signs, nan, fractions, ...) in quiet mode' % (ng, nacc))
     ctx.assumptions += ['float()/int() on the modelled numeral grammar; tokens are printable ASCII',
                         'hand-written acceptance model Model/Cards.v validated on the grid in all three modes',
                         'quiet-mode totality on malformed text is a test (mutation fuzzing), not a theorem']
